@@ -75,10 +75,9 @@ Section Order.
   Variable sig_flag : N -> option N.
   Variable sighash_ecdsa : N -> option N.
   Variable inp_mall : bool -> bool.
-  Variable keep_unknown : bool.
 
-  Notation stepM := (step try_input interp_check desc_info sig_flag sighash_ecdsa inp_mall keep_unknown).
-  Notation runM := (run try_input interp_check desc_info sig_flag sighash_ecdsa inp_mall keep_unknown).
+  Notation stepM := (step try_input interp_check desc_info sig_flag sighash_ecdsa inp_mall).
+  Notation runM := (run try_input interp_check desc_info sig_flag sighash_ecdsa inp_mall).
 
   Definition op_idx (o : op) : nat :=
     match o with
